@@ -576,11 +576,11 @@ Lemma unmarshal_t_S_var vf be x c : unmarshal_t (S vf) be (EVar x) c =
   | Ok [t'] =>
       do c1 <- u_align (align t') (snd r);
       do c2 <- u_enter c1;
-      do n <- validate 66 be (udepth c2) (uoff c1) (ubuf c1) t';
-      do s <- u_sub n c1;
+      do n <- validate 66 be (udepth c2) (uoff c2) (ubuf c2) t';
+      do s <- u_sub n c2;
       if ty_eqb t' (erase x) then
         do v <- unmarshal_t vf be x (fst s);
-        Ok (VVariant t' (fst v), snd s)
+        Ok (VVariant t' (fst v), u_leave (snd s))
       else Err
   | _ => Err
   end.
